@@ -8,6 +8,7 @@ package main
 //            "jobs": [{"harness": "vh/c07.HexRoundTrip", "params": {"n": 3}, "cfg": {"MaxFork": 64}}]}
 
 import (
+	"runtime/pprof"
 	"encoding/json"
 	"flag"
 	"fmt"
@@ -75,7 +76,13 @@ func main() {
 	jobPath := flag.String("job", "", "job file")
 	outPath := flag.String("out", "", "result file")
 	verbose := flag.Bool("v", false, "verbose")
+	cpuprof := flag.String("cpuprofile", "", "write cpu profile")
 	flag.Parse()
+	if *cpuprof != "" {
+		f, _ := os.Create(*cpuprof)
+		pprof.StartCPUProfile(f)
+		defer pprof.StopCPUProfile()
+	}
 	if *jobPath == "" {
 		fmt.Fprintln(os.Stderr, "usage: gosym -job job.json -out result.json")
 		os.Exit(2)
